@@ -18,7 +18,8 @@ RULE = ("histories of 2-6 clients (threads, one proxy each, reconnecting now and
 ASSUMPTIONS = ["oneway completions are awaited (10 s watchdog, expiry = inconclusive)", "peer address compared with the client's getsockname() (TCP loopback)"]
 REQUIRED_REACH = ["injected_yields", "snapshots_checked", "replies_checked", "raising_calls", "oneway_calls", "batch_calls", "ping_replies", "handshake_replies", "worker_reuse_handshakes", "idless_requests", "reply_correlation_ids_checked", "refused_handshake_replies", "bare_requests"]
 SHARD_TIMEOUT = {"quick": 240, "thorough": 2800}
-OPS = ["ret", "noresp", "noresp", "rais", "rais", "ow", "batch", "batch_rais", "propget", "propset", "ping", "handshake", "reconnect", "propget_rais", "badhandshake", "bare", "bare", "barepoll"]
+OPS = ["ret", "noresp", "noresp", "rais", "rais", "ow", "batch", "batch_rais", "propget", "propset", "ping", "handshake", "reconnect", "propget_rais", "badhandshake", "bare", "bare", "barepoll", "ow_rst"]
+# "ow_rst": a oneway call whose connection the client resets right after sending (the request may or may not get served)
 # "bare": a request that carries no annotation at all; "barepoll": the same, to a method that writes into its own request-annotation dict
 
 
@@ -208,6 +209,17 @@ class Client(threading.Thread):
                         out = p.rais(token, idiom)
                     elif op == "ow":
                         out = p.ow(token, idiom)
+                    elif op == "ow_rst":
+                        out = p.ow(token, idiom)
+                        rec["local"] = p._pyroLocalSocket
+                        rec["seq"] = p._pyroSeq
+                        import socket as _s
+                        import struct as _st
+                        p._pyroConnection.sock.setsockopt(_s.SOL_SOCKET, _s.SO_LINGER, _st.pack("ii", 1, 0))
+                        p._pyroRelease()
+                        p._pyroBind()
+                        rec["resp"] = {}
+                        rec["after_serial"] = p.whoami()
                     elif op in ("batch", "batch_rais"):
                         b = P.client.BatchProxy(p)
                         b.ret(token, idiom)
@@ -222,6 +234,12 @@ class Client(threading.Thread):
                     rec["outcome"] = ("ok", out)
                 except Exception as x:
                     rec["outcome"] = ("exc", type(x).__name__, str(x)[:80])
+                if op == "ow_rst":
+                    rec["serial"] = serial
+                    serial = rec.pop("after_serial", serial)
+                    self.records.append(rec)
+                    pending_ow.append((token, rec))
+                    continue
                 rec["resp"] = {k: bytes(v) for k, v in dict(ctx.response_annotations).items()}
                 rec["seq"] = p._pyroSeq
                 rec["local"] = p._pyroLocalSocket
@@ -232,7 +250,7 @@ class Client(threading.Thread):
                     # completions are collected at the end of the history
                     pending_ow.append((token, rec))
             for token, rec in pending_ow:
-                if not self.slog.event(token).wait(10):
+                if not self.slog.event(token).wait(10 if rec["op"] == "ow" else 1.0):
                     rec["ow_timeout"] = True
             p._pyroRelease()
         except Exception as x:
@@ -288,10 +306,13 @@ def check_history(fx, slog, clients, rec, pay):
             if got is not None and got.decode() != token and not (r["op"] == "batch_rais" and got.decode() == token + "/2"):
                 rec.violation("response-annotation-of-other-call", "client %d op %s token %s received RESP=%r (a different call's annotation)" % (cl.cid, r["op"], token, got), pay)
                 return False
-            if r["op"] == "ow" and resp:
+            if r["op"] in ("ow", "ow_rst") and resp:
                 rec.violation("oneway-call-consumed-annotations", "oneway call left response annotations %r at the client" % (resp,), pay)
                 return False
             if r.get("ow_timeout"):
+                if r["op"] == "ow_rst":
+                    rec.count("reset_oneway_requests_lost")       # the reset overtook the request: nothing ran, nothing to judge
+                    continue
                 rec.inconc("oneway completion not observed within the watchdog")
                 continue
             # (a) the context the method saw
@@ -305,7 +326,7 @@ def check_history(fx, slog, clients, rec, pay):
                     rec.violation("method-ran-wrong-number-of-times", "client %d op %s token %s recorded %d context snapshots: %r" % (cl.cid, r["op"], tk, len(snaps), snaps), pay)
                     return False
                 s = snaps[0]
-                exp_flags = (F.FLAGS_CORR_ID if r["corr"] is not None else 0) | (F.FLAGS_ONEWAY if r["op"] == "ow" else 0) | (F.FLAGS_BATCH if r["op"].startswith("batch") else 0)
+                exp_flags = (F.FLAGS_CORR_ID if r["corr"] is not None else 0) | (F.FLAGS_ONEWAY if r["op"] in ("ow", "ow_rst") else 0) | (F.FLAGS_BATCH if r["op"].startswith("batch") else 0)
                 local = r.get("local")
                 problems = []
                 if r["op"] in ("bare", "barepoll"):
@@ -336,6 +357,8 @@ def check_history(fx, slog, clients, rec, pay):
                                   "client %d op %s token %s: method saw %s" % (cl.cid, r["op"], tk, "; ".join(problems)), pay)
                     return False
                 rec.count("snapshots_checked")
+            if r["op"] == "ow_rst":
+                rec.count("reset_oneway_requests_served")
             rec.count({"rais": "raising_calls", "ow": "oneway_calls", "batch": "batch_calls", "batch_rais": "batch_calls"}.get(r["op"], "other_calls"))
     return True
 
